@@ -96,13 +96,15 @@ def r20_target(repo, sink):
             t = Obj(label="target") if tgt_given else None
             q = Sym("q")
             it.order.name(q, "q", 1)
-            it.run(pd, [q] + ([t] if tgt_given else []), self_obj=me)
+            ret = it.run(pd, [q] + ([t] if tgt_given else []), self_obj=me)
             got = [c for c in it.calls if c[1] == "get_data"]
             want = t if tgt_given else me
             ok = len(got) == 1 and got[0][2][0] == q and got[0][2][1] is want
+            ok = ok and isinstance(ret, Sym) and ret.op == "converted"
             sink.check(ok, "R20", f"pull-identity:Input:{'static' if static else 'dynamic'}:{'forwarded' if tgt_given else 'own'}", pd,
                        ok="source is asked with the request time and the requesting end point",
-                       bad=f"Input.pull_data asks its source with {got[0][2] if got else None}, expected (time, {'given target' if tgt_given else 'self'})")
+                       bad=f"Input.pull_data asks its source with {got[0][2] if got else None} and returns {ret!r}; expected a request (time, "
+                           f"{'given target' if tgt_given else 'self'}) and the result of _convert_and_check")
     out = repo.cls("Output")
     pg = repo.resolve(out, "pinged", "method")
     it = _Rec(repo)
@@ -289,99 +291,200 @@ def _r30_clamps(repo, sink):
 
 
 # =========================================================================== R17
+class _PushRec(FinamInterp):
+    """Output.push_data with recorded stages."""
+
+    def __init__(self, repo, order, shares=False):
+        super().__init__(repo, order)
+        self.events = []
+        self.shares = shares
+
+    def call_hook(self, fv, args, kwargs, node, mod):
+        if isinstance(fv, Closure):
+            n = getattr(fv.func, "name", "")
+            if n == "prepare":
+                self.events.append(("prepare", args[0], args[1]))
+                r = Sym("prepared", args[0])
+                return (r, None) if kwargs.get("report_conversion") else r
+            if n == "_pack" and fv.self_obj is not None:
+                self.events.append(("pack", args[0]))
+                return Sym("packed", args[0])
+            if n == "notify_targets" and fv.self_obj is not None:
+                self.events.append(("notify", args[0], len(fv.self_obj.fields["data"]), fv.self_obj.fields.get("_time")))
+                return None
+        return super().call_hook(fv, args, kwargs, node, mod)
+
+    def get_attr(self, obj, attr, node, mod):
+        if isinstance(obj, Sym) and obj.op in ("prepared", "payload", "prev") and attr in ("data", "size", "nbytes"):
+            return Sym("attr", obj, attr)
+        return super().get_attr(obj, attr, node, mod)
+
+    def ext_call(self, name, args, kwargs, node):
+        if name.endswith("may_share_memory"):
+            self.events.append(("sharecheck", args[0], args[1]))
+            return self.shares
+        return super().ext_call(name, args, kwargs, node)
+
+    def ext_isinstance(self, v, name, node):
+        if name == "str":
+            return isinstance(v, str) or (isinstance(v, Sym) and v.op == "file")
+        return super().ext_isinstance(v, name, node)
+
+
 def r17_pushpath(repo, sink):
-    """Order of the stages of Output.push_data, by dominance."""
-    f = repo.method("Output", "push_data")
-    fn = f.node
-    cfg = CFG(fn)
+    """Decision table of Output.push_data: guards before any effect, refusal of data sharing
+    memory with the newest retained RAM entry, then pack -> append -> publish time -> notify."""
+    c = repo.cls("Output")
+    f = repo.resolve(c, "push_data", "method")
+    q = Sym("q")
 
-    def first(pred, what):
-        for n in sorted((x for x in fn_walk(fn) if pred(x)), key=lambda x: (x.lineno, x.col_offset)):
-            return n
-        sink.bad("R17", f"stage:{what}", f, f"push_data has no '{what}' stage")
-        return None
+    def mk(n_prev=0, prev_file=False, static=False, exchanged=True, targets=True):
+        o = Obj(cls=c, label="Output")
+        prev = [(Sym("T", i), Sym("file", i) if prev_file else Sym("prev", i)) for i in range(n_prev)]
+        o.fields.update(data=prev, name="out", _name="out", logger=Logger(label="logger"), _total_mem=0,
+                        _output_info=Obj(label="info"), _connected_inputs={Obj(label="c"): None},
+                        _out_infos_exchanged=1 if exchanged else 0, _static=static, _targets=[Obj(label="t")] if targets else [],
+                        _time=Sym("T", n_prev - 1) if n_prev else None)
+        return o
 
-    stages = [
-        ("time-check", first(lambda n: isinstance(n, ast.Call) and call_name(n) == "_check_time", "time-check")),
-        ("info-exchanged-guard", first(lambda n: isinstance(n, ast.If) and "_out_infos_exchanged" in U(n.test) and any(isinstance(x, ast.Raise) for x in n.body), "info-exchanged-guard")),
-        ("static-guard", first(lambda n: isinstance(n, ast.Raise) and n.exc is not None and "FinamStaticDataError" in U(n.exc), "static-guard")),
-        ("prepare", first(lambda n: isinstance(n, ast.Call) and call_name(n) == "prepare", "prepare")),
-        ("shared-memory-refusal", first(lambda n: isinstance(n, ast.Raise) and n.exc is not None and "FinamDataError" in U(n.exc), "shared-memory-refusal")),
-        ("pack", first(lambda n: isinstance(n, ast.Call) and self_attr(n.func) == "_pack" if isinstance(n, ast.Call) and isinstance(n.func, ast.Attribute) else False, "pack")),
-        ("append", first(lambda n: isinstance(n, ast.Call) and isinstance(n.func, ast.Attribute) and n.func.attr == "append" and self_attr(n.func.value) == "data", "append")),
-        ("time-published", first(lambda n: isinstance(n, ast.Assign) and any(self_attr(t) == "_time" for t in n.targets), "time-published")),
-        ("notify", first(lambda n: isinstance(n, ast.Call) and isinstance(n.func, ast.Attribute) and self_attr(n.func) == "notify_targets", "notify")),
-    ]
-    present = [(n, a) for n, a in stages if a is not None]
-    for (n1, a1), (n2, a2) in zip(present, present[1:]):
-        n_a, n_b = cfg.node_of(a1), cfg.node_of(a2)
-        ok = (n_a is n_b) or (cfg.reachable(n_a, n_b) and not cfg.reachable(n_b, n_a))
-        if n1 in ("static-guard", "shared-memory-refusal"):
-            # a raise: the next stage must not be reachable around its guard
-            guard = None
-            for p in _parents(a1):
-                if isinstance(p, ast.If):
-                    guard = p
-            ok = guard is not None and cfg.dominates(cfg.node_of(guard), n_b)
-        else:
-            ok = ok and cfg.dominates(n_a, n_b)
-        sink.check(ok, "R17", f"order:{n1}<{n2}", f, ok=f"{n1} precedes {n2} on every path",
-                   bad=f"push_data: {n2} can happen without / before {n1}")
-    # the refusal compares with the newest retained entry
-    ref = [n for n in fn_walk(fn) if isinstance(n, ast.Call) and call_name(n) == "may_share_memory"]
-    ok = bool(ref) and "self.data[-1]" in U(next((p for p in _parents(ref[0]) if isinstance(p, ast.If) and "self.data" in U(p)), ref[0]._parent)) or \
-        any("self.data[-1]" in U(p) for p in _parents(ref[0]) if isinstance(p, ast.If)) if ref else False
-    sink.check(bool(ok), "R17", "refusal-against-newest", f, ok="memory-sharing refusal compares with the newest retained entry",
-               bad="memory-sharing refusal does not look at the newest retained entry")
-    # same refusal in CallbackOutput.get_data
+    def run(o, time=q, shares=False):
+        od = Order()
+        od.name(q, "q", 10)
+        it = _PushRec(repo, od, shares)
+        try:
+            it.run(f, [Sym("payload"), time], self_obj=o)
+            return None, it
+        except Raised as r:
+            return r.name, it
+
+    cases = []
+    # 1 no targets: nothing happens
+    o = mk(targets=False)
+    err, it = run(o)
+    cases.append(("no-targets", err is None and not it.events and o.fields["data"] == [], f"{err} {it.events}"))
+    # 2 non-datetime time
+    o = mk()
+    err, it = run(o, time=Sym("nonsense"))
+    cases.append(("time-type", err == "ValueError" and not it.events and o.fields["data"] == [], f"{err} {it.events}"))
+    # 3 infos not exchanged yet
+    o = mk(exchanged=False)
+    err, it = run(o)
+    cases.append(("info-not-exchanged", err == "FinamNoDataError" and not it.events and o.fields["data"] == [], f"{err} {it.events}"))
+    # 4 static output that already holds its value
+    o = mk(n_prev=1, static=True)
+    err, it = run(o, time=None)
+    cases.append(("static-second-push", err == "FinamStaticDataError" and not it.events and len(o.fields["data"]) == 1, f"{err} {it.events}"))
+    # 5 shares memory with the newest RAM entry
+    o = mk(n_prev=2)
+    err, it = run(o, shares=True)
+    sc = [e for e in it.events if e[0] == "sharecheck"]
+    ok = (err == "FinamDataError" and len(o.fields["data"]) == 2 and o.fields["_time"] == Sym("T", 1)
+          and not any(e[0] in ("pack", "notify") for e in it.events)
+          and len(sc) == 1 and Sym("attr", Sym("prev", 1), "data") in sc[0][1:] and Sym("attr", Sym("prepared", Sym("payload")), "data") in sc[0][1:])
+    cases.append(("shares-memory-with-newest", ok, f"{err} {it.events} data={o.fields['data']!r}"))
+    # 6 newest entry lives in a file: no memory comparison possible, accepted
+    o = mk(n_prev=1, prev_file=True)
+    err, it = run(o, shares=True)
+    cases.append(("newest-entry-on-disk", err is None and not any(e[0] == "sharecheck" for e in it.events) and len(o.fields["data"]) == 2, f"{err} {it.events}"))
+    # 7 normal publication
+    o = mk(n_prev=1)
+    err, it = run(o)
+    kinds = [e[0] for e in it.events]
+    ok = (err is None and kinds == ["prepare", "sharecheck", "pack", "notify"]
+          and it.events[0][2] is o.fields["_output_info"]
+          and o.fields["data"][-1] == (q, Sym("packed", Sym("prepared", Sym("payload"))))
+          and o.fields["_time"] == q and it.events[-1][1:] == (q, 2, q))
+    cases.append(("publication", ok, f"{err} {it.events} data={o.fields['data']!r} _time={o.fields['_time']!r}"))
+    # 8 static first push: stored with time None
+    o = mk(static=True)
+    err, it = run(o, time=q)
+    ok = err is None and len(o.fields["data"]) == 1 and o.fields["data"][0][0] is None and it.events[-1][1] is None
+    cases.append(("static-first-push", ok, f"{err} data={o.fields['data']!r}"))
+    for name, ok, detail in cases:
+        sink.check(bool(ok), "R17", f"push:{name}", f,
+                   ok="push_data behaves as specified for this case",
+                   bad=f"push_data, case '{name}': {detail}")
+    # same refusal in CallbackOutput.get_data (semantic run is R40); here: it remembers its last answer
     g = repo.method("CallbackOutput", "get_data")
-    has = [n for n in fn_walk(g.node) if isinstance(n, ast.Call) and call_name(n) == "may_share_memory"]
-    rs = [n for n in fn_walk(g.node) if isinstance(n, ast.Raise) and n.exc is not None and "FinamDataError" in U(n.exc)]
     stores = [n for n in fn_walk(g.node) if isinstance(n, ast.Assign) and any(self_attr(t) == "last_data" for t in n.targets)]
-    sink.check(bool(has) and bool(rs) and bool(stores), "R17", "refusal:CallbackOutput", g,
-               ok="pull-based output refuses answers sharing memory with the previous one and remembers the answer",
-               bad="CallbackOutput.get_data lost its memory-sharing refusal / does not remember the previous answer")
+    has = [n for n in fn_walk(g.node) if isinstance(n, ast.Call) and call_name(n) == "may_share_memory"]
+    if stores or has:
+        sink.check(bool(stores) and bool(has), "R17", "refusal:CallbackOutput", g,
+                   ok="pull-based output refuses answers sharing memory with the previous one and remembers the answer",
+                   bad="CallbackOutput.get_data compares with / remembers the previous answer only half-way")
 
 
 # =========================================================================== R18
+class _ConvRec(FinamInterp):
+    def __init__(self, repo):
+        super().__init__(repo)
+        self.events = []
+
+    def call_hook(self, fv, args, kwargs, node, mod):
+        if isinstance(fv, Closure):
+            n = getattr(fv.func, "name", "")
+            if n == "to_units":
+                self.events.append(("to_units", args[0], args[1] if len(args) > 1 else kwargs.get("units"), kwargs.get("check_equivalent", False)))
+                r = Sym("converted", args[0])
+                return (r, None) if kwargs.get("report_conversion") else r
+            if n == "check":
+                self.events.append(("check", args[0], args[1]))
+                return None
+        if isinstance(fv, Sym) and fv.op == "transform":
+            self.events.append(("transform", args[0]))
+            return Sym("transformed", args[0])
+        return super().call_hook(fv, args, kwargs, node, mod)
+
+    def get_attr(self, obj, attr, node, mod):
+        if isinstance(obj, Sym) and attr == "shape" and obj.op in ("raw", "transformed", "item"):
+            return (1, Sym("n"))
+        if isinstance(obj, Sym) and attr in ("size", "magnitude", "units"):
+            return Sym("attr", obj, attr)
+        return super().get_attr(obj, attr, node, mod)
+
+    def sym_item(self, c, k, node):
+        if isinstance(c, Sym):
+            return Sym("item", c, repr(k))
+        return super().sym_item(c, k, node)
+
+
 def r18_pullpath(repo, sink):
-    f = repo.method("Input", "pull_data")
+    inp = repo.cls("Input")
+    cc = repo.resolve(inp, "_convert_and_check", "method")
+    for with_tr in (False, True):
+        it = _ConvRec(repo)
+        me = Obj(cls=inp, label="Input")
+        info = Obj(label="in_info", fields={"units": Sym("u_in")})
+        me.fields.update(_transform=Sym("transform") if with_tr else None, _input_info=info, logger=Logger(label="logger"), name="in")
+        try:
+            got = it.run(cc, [Sym("raw")], self_obj=me)
+        except (Raised, Undecided) as exc:
+            raise AnalysisError(f"_convert_and_check outside vocabulary: {exc}") from exc
+        kinds = [e[0] for e in it.events]
+        tu = [e for e in it.events if e[0] == "to_units"]
+        ck = [e for e in it.events if e[0] == "check"]
+        why = None
+        if with_tr and "transform" not in kinds:
+            why = "the grid transformation is not applied"
+        elif not with_tr and "transform" in kinds:
+            why = "a transformation is applied although none is set"
+        elif len(tu) != 1 or len(ck) != 1:
+            why = f"stages are {kinds}: exactly one unit conversion and one check are required"
+        elif kinds.index("to_units") > kinds.index("check") or (with_tr and max(i for i, k in enumerate(kinds) if k == "transform") > kinds.index("to_units")):
+            why = f"stages are out of order: {kinds} (transform -> to_units -> check)"
+        elif tu[0][2] != Sym("u_in") or tu[0][3] is not True:
+            why = f"units are converted to {tu[0][2]!r} with check_equivalent={tu[0][3]}; must be the input's units with check_equivalent=True"
+        elif ck[0][1] != Sym("converted", tu[0][1]) or ck[0][2] is not info:
+            why = "the converted data is not checked against the input's info"
+        elif got != Sym("converted", tu[0][1]):
+            why = f"returns {got!r}, not the converted and checked data"
+        elif with_tr and "transformed" not in repr(tu[0][1]):
+            why = "unit conversion runs on the untransformed data"
+        sink.check(why is None, "R18", f"convert:{'with' if with_tr else 'without'}-transform", cc,
+                   ok="transform (if any) -> to_units(input units, check_equivalent) -> check(input info) -> return", bad=why or "")
+    f = repo.resolve(inp, "pull_data", "method")
     gets = [c for c in calls(f.node, "get_data")]
-    convs = [c for c in calls(f.node, "_convert_and_check")]
     sink.floor("R18", "source.get_data sites in Input.pull_data", len(gets), 1, f)
-    # every get_data result flows into _convert_and_check before any return
-    ok = len(convs) >= len(gets) and len(gets) >= 1
-    for g in gets:
-        st = g
-        while not isinstance(st, ast.stmt):
-            st = st._parent
-        var = st.targets[0].id if isinstance(st, ast.Assign) and isinstance(st.targets[0], ast.Name) else None
-        blk = [s for s in _block(st)]
-        after = blk[blk.index(st) + 1:] if st in blk else []
-        used = any(isinstance(n, ast.Call) and call_name(n) == "_convert_and_check" and n.args and isinstance(n.args[0], ast.Name) and n.args[0].id == var
-                   for s in after for n in walk(s))
-        ok = ok and used
-    sink.check(ok, "R18", "pull-converts", f, ok="every result of source.get_data goes through _convert_and_check",
-               bad="a branch of Input.pull_data returns source data without _convert_and_check")
-    c = repo.method("Input", "_convert_and_check")
-    cfg = CFG(c.node)
-    tr = [n for n in fn_walk(c.node) if isinstance(n, ast.Call) and isinstance(n.func, ast.Attribute) and self_attr(n.func) == "_transform"]
-    tu = [n for n in fn_walk(c.node) if isinstance(n, ast.Call) and call_name(n) == "to_units"]
-    ck = [n for n in fn_walk(c.node) if isinstance(n, ast.Call) and call_name(n) == "check"]
-    if not (tr and tu and ck):
-        sink.bad("R18", "convert-stages", c, f"_convert_and_check lacks a stage (transform {len(tr)}, to_units {len(tu)}, check {len(ck)})")
-        return
-    o1 = cfg.reachable(cfg.node_of(tr[0]), cfg.node_of(tu[0])) and cfg.dominates(cfg.node_of(tu[0]), cfg.node_of(ck[0]))
-    sink.check(o1, "R18", "convert-order", c, ok="transform -> to_units -> check", bad="conversion stages are out of order")
-    ce = next((k.value for k in tu[0].keywords if k.arg == "check_equivalent"), None)
-    units_arg = tu[0].args[1] if len(tu[0].args) > 1 else None
-    sink.check(isinstance(ce, ast.Constant) and ce.value is True and units_arg is not None and "_input_info.units" in U(units_arg), "R18", "convert-units", c,
-               ok="units converted to the input's units with check_equivalent=True", bad="to_units is not called with the input's units and check_equivalent=True")
-    sink.check(len(ck[0].args) >= 2 and "_input_info" in U(ck[0].args[1]), "R18", "convert-check", c,
-               ok="result checked against the input's info", bad="check() does not use the input's info")
-    rets = [n for n in fn_walk(c.node) if isinstance(n, ast.Return)]
-    sink.check(all(cfg.dominates(cfg.node_of(ck[0]), cfg.node_of(r)) for r in rets), "R18", "check-dominates-return", c,
-               ok="check dominates the return", bad="_convert_and_check can return unchecked data")
 
 
 def _block(st):
@@ -423,32 +526,80 @@ def r40_cbtime(repo, sink):
         sink.bad("R40", "provider-none", f, "a provider returning None does not raise FinamNoDataError")
     except Raised as r:
         sink.check(r.name == "FinamNoDataError", "R40", "provider-none", f, ok="None from the provider raises FinamNoDataError (retry)", bad=f"raises {r.name}")
-    # WeightedSum
+    # WeightedSum: abstract run of the provider
     if repo.has_cls("WeightedSum"):
-        ws = repo.method("WeightedSum", "_get_data")
-        pulls = [c for c in calls(ws.node, "pull_data")]
-        tpar = ws.params[1] if len(ws.params) > 1 else None
-        ok = bool(pulls) and all(c.args and isinstance(c.args[0], ast.Name) and c.args[0].id == tpar for c in pulls)
-        from .sched import _stores_name
-        ok = ok and not _stores_name(ws.node, tpar)
-        sink.check(ok, "R40", "weighted-sum-pull-time", ws, ok="every input is pulled for the requested time",
-                   bad="WeightedSum pulls an input for a time other than the requested one")
-        loop_items = [n for n in fn_walk(ws.node) if isinstance(n, (ast.DictComp, ast.For)) and "self.inputs" in U(n)]
-        sink.check(bool(loop_items), "R40", "weighted-sum-all-inputs", ws, ok="all inputs are pulled", bad="not all inputs are pulled")
-        muls = [n for n in fn_walk(ws.node) if isinstance(n, ast.BinOp) and isinstance(n.op, ast.Mult)]
-        defs = {t.id: U(n.value) for n in fn_walk(ws.node) if isinstance(n, ast.Assign) for t in n.targets if isinstance(t, ast.Name)}
-        ok = bool(muls)
-        for m in muls:
-            a, b = defs.get(U(m.left), U(m.left)), defs.get(U(m.right), U(m.right))
-            pair = sorted([a, b], key=len)
-            ok = ok and "strip_time" in pair[0] and "strip_time" in pair[1] and "[name]" in pair[0] and "name + '_weight'" in pair[1]
-        sink.check(ok, "R40", "weighted-sum-pairs", ws, ok="each value is multiplied with its own `<name>_weight`, both time-stripped",
-                   bad="a value is not multiplied with its own weight (or the time axis is not stripped)")
-        acc = [n for n in fn_walk(ws.node) if isinstance(n, ast.AugAssign)]
-        sink.check(all(isinstance(n.op, ast.Add) for n in acc) and bool(acc), "R40", "weighted-sum-accumulate", ws,
-                   ok="products are accumulated by addition", bad="products are not summed")
-        names_loop = [n for n in fn_walk(ws.node) if isinstance(n, ast.For) and "_input_names" in U(n.iter)]
-        sink.check(bool(names_loop), "R40", "weighted-sum-all-names", ws, ok="sum ranges over all configured names", bad="sum does not range over all configured names")
+        wc = repo.cls("WeightedSum")
+        ws = repo.resolve(wc, "_get_data", "method")
+        names = ["a", "b", "c"]
+
+        class _WS(_Rec):
+            def __init__(self, repo):
+                super().__init__(repo)
+                self.pulled = []
+
+            def call_hook(self, fv, args, kwargs, node, mod):
+                if isinstance(fv, Closure) and getattr(fv.func, "name", "") == "strip_time":
+                    return Sym("st", args[0])
+                if isinstance(fv, Sym) and fv.op == "stubcall" and fv.args[1] == "pull_data":
+                    self.pulled.append((fv.args[0].obj.fields["name"], args[0]))
+                    return Sym("v", fv.args[0].obj.fields["name"], args[0])
+                if isinstance(fv, Sym) and fv.op == "method" and fv.args[1] == "copy":
+                    return Sym("copy", fv.args[0])
+                return super().call_hook(fv, args, kwargs, node, mod)
+
+            def get_attr(self, obj, attr, node, mod):
+                if isinstance(obj, Sym) and attr == "copy":
+                    return Sym("method", obj, "copy")
+                return super().get_attr(obj, attr, node, mod)
+
+        inputs = {}
+        for n in names:
+            for nm in (n, n + "_weight"):
+                st = Obj(label="stub")
+                st.fields["name"] = nm
+                inputs[nm] = st
+        me = Obj(cls=wc, label="WeightedSum")
+        me.fields.update(_input_names=list(names), _grid=Sym("grid"), _in_data={"x": 1}, _out_data=None, _last_update=None,
+                         status=Sym("enum", "ComponentStatus", "VALIDATED"), inputs=inputs, logger=Logger(label="logger"))
+        it = _WS(repo)
+        q, q2 = Sym("q"), Sym("q2")
+        it.order.name(q, "q", 1)
+        it.order.name(q2, "q2", 2)
+        try:
+            r1 = it.run(ws, [None, q], self_obj=me)
+            n_pulls_1 = len(it.pulled)
+            r1b = it.run(ws, [None, q], self_obj=me)
+            n_pulls_2 = len(it.pulled)
+            r2 = it.run(ws, [None, q2], self_obj=me)
+        except (Raised, Undecided) as exc:
+            raise AnalysisError(f"WeightedSum._get_data outside vocabulary: {exc}") from exc
+        from ..absbase import same_value
+
+        def expect(t):
+            tot = None
+            for n in names:
+                term = Sym("mul", Sym("st", Sym("v", n, t)), Sym("st", Sym("v", n + "_weight", t)))
+                tot = term if tot is None else Sym("add", tot, term)
+            return tot
+
+        def strip_copy(v):
+            return v.args[0] if isinstance(v, Sym) and v.op == "copy" else v
+
+        why = None
+        if sorted(it.pulled[:n_pulls_1]) != sorted((nm, q) for nm in inputs):
+            why = f"first request pulls {sorted(it.pulled[:n_pulls_1])!r}; every input must be pulled once for the requested time"
+        elif not same_value(strip_copy(r1), expect(q)):
+            why = f"result is {strip_copy(r1)!r}, expected the sum over all names of value x own weight (time-stripped)"
+        elif n_pulls_2 != n_pulls_1 or not same_value(strip_copy(r1b), expect(q)):
+            why = "a repeated request for the same time must serve the same sum without pulling again"
+        elif not same_value(strip_copy(r2), expect(q2)) or sorted(it.pulled[n_pulls_2:]) != sorted((nm, q2) for nm in inputs):
+            why = f"request for a later time yields {strip_copy(r2)!r} after pulls {it.pulled[n_pulls_2:]!r}"
+        sink.check(why is None, "R40", "weighted-sum", ws,
+                   ok="provider pulls every input for the requested time and returns sum(value x own weight), memoised per time", bad=why or "")
+        me2 = Obj(cls=wc, label="WeightedSum")
+        me2.fields.update(_in_data=None)
+        sink.check(_WS(repo).run(ws, [None, q], self_obj=me2) is None, "R40", "weighted-sum-not-ready", ws,
+                   ok="before the initial data is there the provider answers None (no data yet)", bad="provider does not answer None before its inputs were pulled")
 
 
 class _CbRec(_Rec):
